@@ -50,9 +50,12 @@ func compareOps(s *stageResult, d *driver, ops []string, real []string) {
 // ---------------------------------------------------------------------------
 // E1: rule tables
 
-func stageE1(driverPath string) stageResult {
+func stageE1(driverPath string, algs map[string]bool) stageResult {
 	s := stageResult{Name: "E1", Exhaustive: true, Domain: "every (state<256, prop<128) cell of grTransitions/wbTransitions/sbTransitions/lbTransitions vs Gen/Rules"}
 	for _, t := range []string{"gr", "wb", "sb", "lb"} {
+		if !algs[t] {
+			continue
+		}
 		var real []string
 		for st := 0; st < 256; st++ {
 			for p := 0; p < 128; p++ {
@@ -108,7 +111,7 @@ func diffSets(s *stageResult, op string, real, model []string) {
 // ---------------------------------------------------------------------------
 // E2: every code point through every lookup
 
-func stageE2(driverPath string) stageResult {
+func stageE2(driverPath string, sel map[string]bool) stageResult {
 	s := stageResult{Name: "E2", Exhaustive: true, Domain: "all 1,114,112 code points through propertyGraphemes, property(word), property(sentence), propertyLineBreak, propertyEastAsianWidth, property(emoji) and the raw searches, run-length encoded, vs Lookup on Gen/Tables"}
 	fns := map[string]func(r rune) int{
 		"g": func(r rune) int { return u.VerifPropertyGraphemes(r) },
@@ -123,6 +126,9 @@ func stageE2(driverPath string) stageResult {
 	}
 	names := []string{"g", "w", "s", "l", "e", "m", "G", "L", "E"}
 	for _, n := range names {
+		if !sel[n] {
+			continue
+		}
 		f := fns[n]
 		var real []string
 		lo, cur := 0, f(0)
@@ -297,7 +303,7 @@ func restFamily(alg byte, thorough bool) [][]byte {
 	return res
 }
 
-func stageE3(d *driver, thorough bool) stageResult {
+func stageE3(d *driver, thorough bool, algSel map[string]bool) stageResult {
 	s := stageResult{Name: "E3", Exhaustive: true, Domain: "transition*State: every state value the packing allows (-1, 0..15 / 0..31 / 0..15 / 0..255) x one code point per class signature x a family of rests covering every look-ahead outcome (empty, each class, ignorable runs of length 0-3, U+FFFD, ill-formed bytes), byte and string form, vs Impl.transition*"}
 	var ops, real []string
 	flush := func() {
@@ -314,7 +320,7 @@ func stageE3(d *driver, thorough bool) stageResult {
 		}
 	}
 	// graphemes
-	for st := -1; st <= 15; st++ {
+	for st := -1; st <= 15 && algSel["gr"]; st++ {
 		for _, r := range algReps('G') {
 			ns, p, b := u.VerifTransitionGrapheme(st, r)
 			emit(fmt.Sprintf("tg %d %d", st, r), fmt.Sprintf("%d %d %d", ns, p, b2i(b)))
@@ -341,6 +347,9 @@ func stageE3(d *driver, thorough bool) stageResult {
 		}},
 	}
 	for _, a := range algs {
+		if !algSel[map[byte]string{'W': "wb", 'S': "sb", 'L': "lb"}[a.alg]] {
+			continue
+		}
 		rests := restFamily(a.alg, thorough)
 		reps := algReps(a.alg)
 		for st := -1; st <= a.maxSt; st++ {
@@ -811,32 +820,105 @@ func realVerdicts(kind string, b []byte, str bool) string {
 
 var specAlg = map[string]string{"fg": "g", "fw": "w", "fs": "s", "fl": "l"}
 
-func stageSpec(d *driver, cs *caseSource, kindsWanted []string, thorough bool) stageResult {
-	s := stageResult{Name: "SPEC", Domain: "FirstGraphemeCluster/FirstWord/FirstSentence/FirstLineSegment (byte and string forms) chained from -1 on generated strings vs the declarative Lean readings of UAX #29 / UAX #14 (Spec/*.lean)"}
-	var ops, real []string
-	flush := func() {
-		if len(ops) > 0 {
-			compareOps(&s, d, ops, real)
-			ops, real = ops[:0], real[:0]
+// stepVerdicts: what Step/StepString say about algorithm alg at each interior position: the
+// grapheme projection marks cluster ends; the others give the flag at cluster ends and '.'
+// strictly inside a cluster (where Step is silent)
+func stepVerdicts(alg string, b []byte, str bool) string {
+	segs, err := chainSegs("st", b, str)
+	if err != "" {
+		return "ERR:" + err
+	}
+	ends := endSet(segs)
+	var sb strings.Builder
+	for i := 0; i < len(b); {
+		_, n := utf8.DecodeRune(b[i:])
+		i += n
+		if i >= len(b) {
+			break
+		}
+		s, ok := ends[i]
+		switch {
+		case alg == "g" && ok:
+			sb.WriteByte('1')
+		case alg == "g":
+			sb.WriteByte('0')
+		case !ok:
+			sb.WriteByte('.')
+		case alg == "w":
+			sb.WriteByte(byte('0' + b2i(s.extra&u.MaskWord != 0)))
+		case alg == "s":
+			sb.WriteByte(byte('0' + b2i(s.extra&u.MaskSentence != 0)))
+		default:
+			sb.WriteByte(byte('0' + s.extra&u.MaskLine))
 		}
 	}
-	handle := func(b []byte) {
+	if sb.Len() == 0 {
+		return "-"
+	}
+	return sb.String()
+}
+
+func matchesSpec(got, spec string) bool {
+	if len(got) != len(spec) {
+		return false
+	}
+	for i := range got {
+		if got[i] != '.' && got[i] != spec[i] {
+			return false
+		}
+	}
+	return true
+}
+
+// stageSpec: kindsWanted are First* kinds (fg, fw, fs, fl); withStep adds the projections of
+// Step and StepString for the same algorithms.
+func stageSpec(d *driver, cs *caseSource, kindsWanted []string, withStep bool, thorough bool) stageResult {
+	s := stageResult{Name: "SPEC", Domain: "FirstGraphemeCluster/FirstWord/FirstSentence/FirstLineSegment (byte and string forms) and the matching flags of Step/StepString, chained from -1 on generated strings, vs the declarative Lean readings of UAX #29 / UAX #14 (Spec/*.lean), position by position"}
+	type item struct {
+		b    []byte
+		kind string
+	}
+	var ops []string
+	var items []item
+	flush := func() {
+		if len(ops) == 0 {
+			return
+		}
+		specs := d.run(ops)
+		for i, it := range items {
+			sp := specs[i]
+			alg := specAlg[it.kind]
+			for _, str := range []bool{false, true} {
+				s.Evaluations++
+				if rv := realVerdicts(it.kind, it.b, str); rv != sp {
+					s.add(ops[i], rv, sp, fmt.Sprintf("%s string-form=%v", kindName[it.kind], str))
+				}
+				if withStep {
+					s.Evaluations++
+					if sv := stepVerdicts(alg, it.b, str); !matchesSpec(sv, sp) {
+						s.add(ops[i], sv, sp, fmt.Sprintf("Step string-form=%v, projection %s", str, alg))
+					}
+				}
+			}
+		}
+		if len(s.Samples) < 3 {
+			s.Samples = append(s.Samples, ops[0]+" => "+specs[0])
+		}
+		ops, items = ops[:0], items[:0]
+	}
+	handle := func(b []byte, ks []string) {
 		if len(b) == 0 {
 			return
 		}
-		for _, k := range kindsWanted {
-			rv := realVerdicts(k, b, false)
-			if rs := realVerdicts(k, b, true); rs != rv {
-				s.add("spec "+specAlg[k]+" "+hx(b), rv, rs, "byte form vs string form differ")
-			}
+		for _, k := range ks {
 			ops = append(ops, "spec "+specAlg[k]+" "+hx(b))
-			real = append(real, rv)
+			items = append(items, item{b, k})
 		}
 		if len(ops) >= 20000 {
 			flush()
 		}
 	}
-	cs.each(func(i int, gc genCase) { handle(gc.input) })
+	cs.each(func(i int, gc genCase) { handle(gc.input, kindsWanted) })
 	if thorough {
 		for _, k := range kindsWanted {
 			alg := map[string]byte{"fg": 'G', "fw": 'W', "fs": 'S', "fl": 'L'}[k]
@@ -845,14 +927,7 @@ func stageSpec(d *driver, cs *caseSource, kindsWanted []string, thorough bool) s
 				n = 4
 			}
 			kk := k
-			shortSequences(alg, n, func(b []byte) {
-				rv := realVerdicts(kk, b, false)
-				ops = append(ops, "spec "+specAlg[kk]+" "+hx(b))
-				real = append(real, rv)
-				if len(ops) >= 20000 {
-					flush()
-				}
-			})
+			shortSequences(alg, n, func(b []byte) { handle(b, []string{kk}) })
 		}
 	}
 	flush()
